@@ -324,6 +324,12 @@ Deliver(to, P, tags) ==
                  ELSE IF TsOf(l) < from THEN "old" ELSE IF TsOf(l) < to THEN "due" ELSE "future"]
     /\ spc' = "send"
 
+\* an error ENTRY reaches the frame loop: the tick is abandoned, the goroutine returns (and closes the channel)
+ErrorEntry ==
+    /\ \/ AsIntended("err_frame") /\ spc' = "exit" /\ UNCHANGED <<buf, used>>
+       \/ AsCoded("err_frame") /\ spc' = "errsend" /\ buf' = ErrTail /\ used' = used \cup {"err_frame"}   \* onErr(e.Err, res): res <- "]}}"
+    /\ UNCHANGED <<sent, flags, from, cls>>
+
 \* Process(plan, [from, to)) and the loop over `out`.
 \*   o = "none"  complete answer            o = "query" QueryCtx fails        o = "ctx" the context is already cancelled
 \*   o = "row"   the database fails after the rows P were handed over (rows.Next() false, rows.Err() set)
@@ -336,14 +342,11 @@ SQuery(to, o, P) ==
                            /\ fault' = "query" /\ spc' = "exit" /\ UNCHANGED <<buf, sent, flags, from, cls, used>>
          [] o = "row"   -> "row" \in Faults /\ fault = "none" /\ P \subseteq Rows(to)
                            /\ fault' = "row"
-                           /\ (\/ AsIntended("row_err_unnoticed") /\ spc' = "exit" /\ UNCHANGED <<buf, sent, flags, from, cls, used>>
+                           /\ (\/ AsIntended("row_err_unnoticed") /\ ErrorEntry              \* rows.Err() handed on as an error entry
                                \/ AsCoded("row_err_unnoticed") /\ Deliver(to, P, {"row_err_unnoticed"}))  \* as coded: looks complete
          [] o = "scan"  -> "scan" \in Faults /\ fault = "none" /\ P \subseteq Rows(to) /\ P # Rows(to)
                            /\ fault' = "scan"
-                           /\ (\/ AsIntended("err_frame") /\ spc' = "exit" /\ UNCHANGED <<buf, used>>
-                               \/ AsCoded("err_frame") /\ spc' = "errsend" /\ buf' = ErrTail       \* onErr(e.Err, res): res <- "]}}"
-                                  /\ used' = used \cup {"err_frame"})
-                           /\ UNCHANGED <<sent, flags, from, cls>>
+                           /\ ErrorEntry
     /\ UNCHANGED <<now, store, req, status, client, hpc, rpc, dpc, chClosed, wdone, cancelled, svcTick, pingTick,
                    vcached, wire, stale, delivered, late>>
 
